@@ -276,19 +276,19 @@ def run_client_case(outcomes: list, delay: float, action: str, k: int, slot: str
             await super().connect_socket(sock, address)
             await asyncio.get_running_loop().sock_connect(sock, lst.getsockname())
 
+        async def ensure_resolved(self, backend, host, port, family, type, proto=0, flags=0):
+            return list(infos)
+
     async def main(loop):
         resolver = ConnectingResolver(script)
 
-        class RaceBackend(AsyncIOBackend):
-            async def create_tcp_connection(self, host, port, *, local_address=None, happy_eyeballs_delay=None):
-                sock = await resolver._staggered_race_connection_impl(self, remote_addrinfo=infos, local_addrinfo=None, happy_eyeballs_delay=delay)
-                return await self.wrap_stream_socket(sock)
-
-        backend = RaceBackend()
+        # the real AsyncIOBackend.create_tcp_connection() runs (race, then wrap_stream_socket): only name resolution is scripted
+        backend = AsyncIOBackend()
+        backend._AsyncIOBackend__dns_resolver = resolver  # type: ignore[attr-defined]
         old = _dr._socket
         _dr._socket = _SockModShim(make_tracking(census))  # type: ignore[assignment]
         try:
-            client = AsyncTCPNetworkClient(("racing.test", 80), StreamProtocol(StringLineSerializer()), backend)
+            client = AsyncTCPNetworkClient(("racing.test", 80), StreamProtocol(StringLineSerializer()), backend, happy_eyeballs_delay=delay)
 
             async def waiter():
                 res["it_start"] = loop.iteration
